@@ -1,5 +1,6 @@
 SPECIFICATION MCSpec
 CONSTANTS WalkEvery = 100
+          HeavyEvery = 1
 INVARIANTS Century CivilAgrees InverseAgrees WeekdayAgrees EndOfCentury UnitsNested TextsNameInstant FormatRoundTrip RequiredExact
 PROPERTIES Monotone
 CHECK_DEADLOCK FALSE
